@@ -22,6 +22,9 @@ pub struct ByteChan {
     pub errored: bool,
     pub waker: Option<Waker>,
     pub total: u64,
+    /// bounded buffer: writes report would-block while this many bytes are unread
+    pub limit: Option<usize>,
+    pub write_waker: Option<Waker>,
 }
 
 #[derive(Clone, Copy, Debug, PartialEq, Eq, serde::Serialize, serde::Deserialize)]
@@ -186,6 +189,9 @@ impl AsyncRead for PipeEnd {
             let b = g.buf.pop_front().unwrap();
             buf.put_slice(&[b]);
         }
+        if let Some(w) = g.write_waker.take() {
+            w.wake();
+        }
         drop(g);
         self.done(OpKind::Read);
         Poll::Ready(Ok(()))
@@ -207,6 +213,10 @@ impl AsyncWrite for PipeEnd {
             drop(g);
             self.done(OpKind::Write);
             return Poll::Ready(Err(io::Error::new(io::ErrorKind::BrokenPipe, "sim: peer closed")));
+        }
+        if g.limit.is_some_and(|l| g.buf.len() >= l) {
+            g.write_waker = Some(cx.waker().clone());
+            return Poll::Pending;
         }
         let n = data.len().min(max_chunk.max(1));
         g.buf.extend(&data[..n]);
